@@ -263,6 +263,91 @@ def gen_file(rng, depth=3, maxitems=4):
     return out
 
 
+# --------------------------------------------------------------------------- long files (LookaheadIterator buffer)
+
+LONG_MIXES = ["amp", "paths", "lists", "docs", "envs"]
+
+
+def _I(s_, d=None):
+    return {"k": "id", "d": None if d is None else cps(d), "s": cps(s_)}
+
+
+def _S(s_):
+    return {"k": "str", "d": None, "s": cps(s_)}
+
+
+def _C(s_):
+    return {"k": "co", "d": None, "s": cps(s_)}
+
+
+def _avm(fv, d=None):
+    return {"k": "avm", "d": None if d is None else cps(d), "f": [[[cps(c) for c in p.split(".")], v] for p, v in fv]}
+
+
+def _conj(*ts):
+    return {"k": "conj", "t": list(ts)}
+
+
+def _cons(vs, e="closed"):
+    return {"k": "cons", "d": None, "v": list(vs), "e": e}
+
+
+def _diff(vs):
+    return {"k": "diff", "d": None, "v": list(vs)}
+
+
+def _td(name, ts, d=None, kind="typedef"):
+    return {"k": kind, "id": cps(name), "t": ts, "d": None if d is None else cps(d)}
+
+
+def long_entities(mix, i):
+    """the i-th block of entities of a mix (deterministic; entities differ in shape with i so that every
+    kind of token falls on every alignment as the leading comment run grows)"""
+    n = "t%d" % i
+    if mix == "amp":
+        k = 2 + i % 5
+        return [_td(n, [_I("s%d" % j) for j in range(k)] + [_avm([("F", _conj(*[_I("v%d" % j) for j in range(1 + i % 4)]
+                                                                                 ) if i % 4 else _I("v"))])])]
+    if mix == "paths":
+        depth = 1 + i % 4
+        path = ".".join(["A", "B", "C", "D"][:depth])
+        return [_td(n, [_I("s"), _avm([(path, _I("x")), ("E.F", _conj(_I("y"), _C("z"))),
+                                       ("G", _avm([("H.I", _S("q")), ("J", _avm([]))]))][: 1 + i % 3])])]
+    if mix == "lists":
+        m = i % 7
+        items = [_I("a%d" % j) if j % 2 else _conj(_I("b"), _C("c%d" % j)) for j in range(m)]
+        return [_td(n, [_I("s"), _avm([("L", _cons(items, ["closed", "open", "closed", "open"][i % 4])),
+                                       ("M", _diff(items[:i % 4])),
+                                       ("N", _cons([_I("a")] + items[:i % 3], _C("r")))][: 1 + i % 3])])]
+    if mix == "docs":
+        r = i % 4
+        if r == 0:
+            return [_td(n, [_I("s", "doc of s"), _avm([("F", _I("x", "inner\n  doc \"\"\" q"))])], "def doc %d" % i)]
+        if r == 1:
+            return [_td(n, [], "only a docstring", kind="addendum")]
+        if r == 2:
+            it = _td(n, [_I("s"), _avm([("A.B", _S("x"))])], kind="lexrule")
+            it["a"] = cps("suffix")
+            it["p"] = [[cps("!a"), cps("!as")], [cps("*"), cps("s")]][: 1 + i % 2]
+            return [it]
+        return [_td(n, [_avm([("A", _I("x"))], "avm doc"), _I("u")], kind="addendum")]
+    if mix == "envs":
+        r = i % 5
+        if r == 0:
+            return [{"k": "begin", "inst": True, "status": cps("lex-rule")}, _td(n, [_I("s"), _avm([("A.B", _I("x"))])]),
+                    {"k": "letterset", "var": cps("!a"), "chars": cps("ab)c d")}, {"k": "end", "inst": True}]
+        if r == 1:
+            return [{"k": "begin", "inst": False, "status": None}, {"k": "begin", "inst": True, "status": cps("rule")},
+                    _td(n, [_I("s")]), {"k": "end", "inst": True}, {"k": "include", "v": cps("inc%d" % i)},
+                    {"k": "end", "inst": False}]
+        if r == 2:
+            return [{"k": "bcomment", "s": cps(" block %d " % i)}, _td(n, [_I("s"), _I("u")])]
+        if r == 3:
+            return [{"k": "wildcard", "var": cps("?x"), "chars": cps("xyz")}, {"k": "include", "v": cps("f%d" % i)}]
+        return [_td(n, [_I("s"), _avm([("L", _cons([_I("a"), _I("b")]))])], "d")]
+    raise ValueError(mix)
+
+
 # --------------------------------------------------------------------------- building real objects
 
 def b_term(j):
@@ -748,6 +833,106 @@ class C15(Check):
                     "features, constructor results, docstring formatting/escaping/scanning, parser errors on mutated "
                     "token streams)"]
 
+    # ---- pins: source constants that the hand-written model mirrors (checked inside Lean on every run)
+    MESSAGE = re.compile(r"^(un)?expected|^Expected|^unterminated|^invalid|^[Cc]annot|^Empty list must|^no supertypes|"
+                         r"^no AVM|^not a valid|^Subtype operator|^Single-quoted|; Continuing|^ or $|object at feature|"
+                         r"does not support|^docstring$|^block comment$")
+
+    @staticmethod
+    def strip_verbose(pat):
+        """remove what re.VERBOSE ignores: white space and #-comments outside character classes"""
+        out = []
+        i = 0
+        in_class = False
+        while i < len(pat):
+            c = pat[i]
+            if c == "\\":
+                out.append(pat[i:i + 2])
+                i += 2
+                continue
+            if in_class:
+                out.append(c)
+                if c == "]":
+                    in_class = False
+            elif c == "[":
+                in_class = True
+                out.append(c)
+                if pat[i + 1:i + 2] == "^":
+                    out.append("^")
+                    i += 1
+                if pat[i + 1:i + 2] == "]":
+                    out.append("]")
+                    i += 1
+            elif c.isspace():
+                pass
+            elif c == "#":
+                while i < len(pat) and pat[i] != "\n":
+                    i += 1
+                continue
+            else:
+                out.append(c)
+            i += 1
+        return "".join(out)
+
+    def fn_consts(self, fn):
+        import types
+
+        def walk(code):
+            out = []
+            for c in code.co_consts:
+                if isinstance(c, types.CodeType):
+                    out += walk(c)
+                elif isinstance(c, bool) or c is None:
+                    continue
+                elif isinstance(c, (int, float)):
+                    out.append(str(c))
+                elif isinstance(c, str):
+                    if c == fn.__doc__ or self.MESSAGE.search(c):
+                        continue        # docstrings and exception/warning texts are not pinned
+                    out.append(c)
+            return out
+        return walk(fn.__code__)
+
+    def tables(self):
+        from .common import tables as T
+        lit = T.lean_strlit
+        fns = [("tdl." + n, getattr(tdl, n)) for n in (
+            "_is_comment", "_shift", "_lex", "_bounded", "_parse_tdl", "_parse_tdl_definition", "_parse_letterset",
+            "_parse_tdl_affixes", "_parse_tdl_conjunction", "_parse_tdl_term", "_parse_tdl_feature_structure",
+            "_parse_tdl_list", "_parse_tdl_begin_environment", "_parse_tdl_end_environment", "_parse_tdl_include",
+            "_format_term", "_format_string", "_format_regex", "_format_coref", "_format_avm", "_format_conslist",
+            "_format_difflist", "_format_conjunction", "_format_typedef", "_format_typedef_body", "_format_docstring",
+            "_escape_docstring", "_format_morphset", "_format_environment", "_format_include", "_format_linecomment",
+            "_format_blockcomment", "_collect_list_items")]
+        fns += [("tdl.ConsList.append", tdl.ConsList.append), ("tdl.ConsList.terminate", tdl.ConsList.terminate),
+                ("tdl.DiffList.__init__", tdl.DiffList.__init__), ("tdl.AVM.features", tdl.AVM.features),
+                ("tdl.Coreference.__str__", tdl.Coreference.__str__),
+                ("tfs.FeatureStructure.__setitem__", tfs.FeatureStructure.__setitem__),
+                ("tfs.FeatureStructure.__getitem__", tfs.FeatureStructure.__getitem__),
+                ("tfs.FeatureStructure._is_notable", tfs.FeatureStructure._is_notable),
+                ("tfs.FeatureStructure.features", tfs.FeatureStructure.features)]
+        defaults = [("tdl.ConsList.__init__", tdl.ConsList.__init__), ("tdl.DiffList.__init__", tdl.DiffList.__init__),
+                    ("tdl.format", tdl.format), ("tdl._peek", tdl._peek), ("tdl.AVM.features", tdl.AVM.features),
+                    ("tfs.FeatureStructure.features", tfs.FeatureStructure.features),
+                    ("tdl.TypeAddendum.__init__", tdl.TypeAddendum.__init__)]
+        lines = [
+            "def c15LexPattern : String := %s" % lit(self.strip_verbose(tdl._tdl_lex_re.pattern)),
+            "def c15LexFlags : Nat := %d" % int(tdl._tdl_lex_re.flags),
+            "def c15LexGroups : Nat := %d" % tdl._tdl_lex_re.groups,
+            "def c15IdentifierPattern : String := %s" % lit(tdl._identifier_pattern),
+            "def c15Layout : List Nat := [%d, %d, %d]" % (tdl._base_indent, tdl._max_inline_list_items, tdl._line_width),
+            "def c15ListNames : List String := [%s]" % ", ".join(lit(x) for x in (
+                tdl.LIST_TYPE, tdl.EMPTY_LIST_TYPE, tdl.LIST_HEAD, tdl.LIST_TAIL, tdl.DIFF_LIST_LIST,
+                tdl.DIFF_LIST_LAST)),
+            "def c15Operators : List String := [%s]" % ", ".join(lit(c._operator) for c in (
+                tdl.TypeDefinition, tdl.TypeAddendum, tdl.LexicalRuleDefinition)),
+            "def c15Defaults : List (String × String) := [\n%s]" % ",\n".join(
+                "  (%s, %s)" % (lit(n), lit(repr(f.__defaults__))) for n, f in defaults),
+            "def c15Consts : List (String × List String) := [\n%s]" % ",\n".join(
+                "  (%s, [%s])" % (lit(n), ", ".join(lit(c) for c in self.fn_consts(f))) for n, f in fns),
+        ]
+        return lines
+
     def setup(self):
         self.tmp = tempfile.mkdtemp(prefix="c15-", dir="/var/tmp")
 
@@ -784,7 +969,35 @@ class C15(Check):
             yield {"kind": "items", "items": [{"k": "typedef", "id": cps("t"), "d": None,
                                                "t": [a, {"k": "avm", "d": None,
                                                          "f": [[[cps("L")], {"k": "diff", "d": None, "v": [a] * nn}]]}]}]}
+        # long files: every later token swept against the 1024-token buffer boundaries of LookaheadIterator
+        for target in ((1024, 2048, 4096) if tier == "quick" else (1024, 2048, 4096, 8192)):
+            mixes = LONG_MIXES if target <= 2048 else LONG_MIXES[: 2 + (target == 4096)]
+            for mi, mix in enumerate(mixes):
+                ks = range(0, 41) if target == 1024 else range((mi * 3) % 4, 41, 4 if tier == "quick" else 1)
+                for k in ks:
+                    yield {"kind": "long", "mix": mix, "k": k, "target": target}
         yield from self.random_cases(rng, n, depth)
+
+    _long_cache = {}
+
+    def long_items(self, case):
+        """k one-token line comments, then entities of the mix until the lexer has seen more than `target`
+        tokens (plus a margin so that the boundary is crossed well inside the file)"""
+        key = (case["mix"], case["target"])
+        if key not in self._long_cache:
+            items, ntok, i = [], 0, 0
+            while ntok <= case["target"] + 80:
+                block = long_entities(case["mix"], i)
+                with warnings.catch_warnings():
+                    warnings.simplefilter("ignore")
+                    ntok += sum(1 for _ in tdl._lex(io.StringIO(fmt_all(b_tree(block)))))
+                items.extend(block)
+                i += 1
+            self._long_cache[key] = (items, ntok)
+        items, ntok = self._long_cache[key]
+        return [{"k": "lcomment", "s": cps(" c%d" % j)} for j in range(case["k"])] + items
+
+    MODEL_LONG_MAX = 2048
 
     def random_cases(self, rng, n, depth, kinds=None):
         for _ in range(n):
@@ -919,6 +1132,14 @@ class C15(Check):
             out, aux = self.run_items(case)
             self._aux = (id(case), aux)
             return out
+        if k == "long":
+            out, aux = self.run_items({"kind": "items", "items": self.long_items(case)})
+            self._aux = (id(case), aux)
+            if case["target"] > self.MODEL_LONG_MAX:
+                # oracle only: keep the observation small
+                return {"tokens": len(out.get("toks", [])) if isinstance(out.get("toks"), list) else out.get("toks"),
+                        "events": len(out["parsed"]) if isinstance(out.get("parsed"), list) else out.get("parsed")}
+            return out
         if k == "toks":
             toks = [(g, uncps(t), 1) for g, t in case["toks"]]
             with warnings.catch_warnings():
@@ -982,6 +1203,10 @@ class C15(Check):
         k = case["kind"]
         if k == "items":
             return {"op": "items", "items": case["items"]}
+        if k == "long":
+            if case["target"] > self.MODEL_LONG_MAX:
+                return None
+            return {"op": "items", "items": self.long_items(case)}
         if k == "toks":
             return {"op": "toks", "toks": case["toks"]}
         if k == "doc":
@@ -1007,6 +1232,24 @@ class C15(Check):
 
         def fail(clause, detail):
             fails.append({"clause": clause, "detail": detail})
+        if k == "long":
+            aux = self._aux[1] if getattr(self, "_aux", (None, None))[0] == id(case) else None
+            items = self.long_items(case)
+            c2 = {"kind": "items", "items": items}
+            if aux is None:
+                _, aux = self.run_items(c2)
+            self._aux = (id(c2), aux)
+            fails = self.oracle(c2, res if "orig" in res else {})
+            self._aux = (id(case), aux)
+            ntok = sum(1 for _ in tdl._lex(io.StringIO(aux["text1"]))) if aux and "text1" in aux else 0
+            if ntok <= case["target"]:
+                fails.append({"clause": "harness: long file is not longer than its target", "detail": repr(ntok)})
+            if aux and "events" in aux:
+                want_n = len(items)
+                if len(aux["events"]) != want_n:
+                    fails.append({"clause": "parsed event kinds differ from the entities written",
+                                  "detail": "expected %d events, got %d" % (want_n, len(aux["events"]))})
+            return fails
         if k == "items":
             aux = None
             if getattr(self, "_aux", (None, None))[0] == id(case):
@@ -1214,6 +1457,13 @@ class C15(Check):
             c[k] = c.get(k, 0) + n
         k = case["kind"]
         inc("kind:" + k)
+        if k == "long":
+            inc("long:%s:>%d" % (case["mix"], case["target"]))
+            inc("long-model-compared" if case["target"] <= self.MODEL_LONG_MAX else "long-oracle-only")
+            aux = self._aux[1] if getattr(self, "_aux", (None,))[0] == id(case) else None
+            if aux and "events" in aux:
+                inc("long-entities", len(aux["events"]))
+            return
         if k == "items":
             inc("items:%d" % min(len(case["items"]), 8))
             for it in case["items"]:
